@@ -5,6 +5,8 @@ package main
 // the pervasive "comment dropped" family.
 
 import (
+	"crypto/sha256"
+	"encoding/hex"
 	"os"
 	"sort"
 	"strings"
@@ -23,13 +25,8 @@ func classKey(s string) string {
 // the cap on reported classes (vlib keeps 40) can never hide a new cause behind accepted ones.
 func orderUnknownFirst(fs []*finding, findingsFile string) []*finding {
 	known := map[string]bool{}
-	if b, err := os.ReadFile(findingsFile); err == nil {
-		for _, ln := range strings.Split(string(b), "\n") {
-			f := strings.Fields(strings.TrimSpace(ln))
-			if len(f) >= 3 && f[0] == "finding:" && f[1] == "property=C20" && strings.HasPrefix(f[2], "class=") {
-				known[strings.TrimPrefix(f[2], "class=")] = true
-			}
-		}
+	for _, k := range knownC20(findingsFile) {
+		known[k] = true
 	}
 	var a, b []*finding
 	for _, f := range fs {
@@ -96,12 +93,40 @@ var oracleRank = map[string]int{
 	"scan-disagrees": 4, "not-idempotent": 5, "comment-changed": 6, "comment-duplicated": 6, "comment-lost": 7,
 }
 
-func classify(fs []*finding) []*finding {
+// posSig: first 8 hex digits of sha256 over the sorted position list. A position is
+// "<placement>:<role of previous token>><role of next token>" — grammatical roles, no identifiers,
+// no token indices — so the signature does not depend on names or on the enumeration order, and
+// it is the same in both tiers (every role pair of the thorough tier also occurs in the quick
+// tier, see NOTES.md). Any change of the set of failing positions changes the class.
+func posSig(ps []string) string {
+	h := sha256.Sum256([]byte(strings.Join(ps, "\n")))
+	return hex.EncodeToString(h[:4])
+}
+
+func knownC20(findingsFile string) []string {
+	var out []string
+	if b, err := os.ReadFile(findingsFile); err == nil {
+		for _, ln := range strings.Split(string(b), "\n") {
+			f := strings.Fields(strings.TrimSpace(ln))
+			if len(f) >= 3 && f[0] == "finding:" && f[1] == "property=C20" && strings.HasPrefix(f[2], "class=") {
+				out = append(out, strings.TrimPrefix(f[2], "class="))
+			}
+		}
+	}
+	sort.Strings(out)
+	return out
+}
+
+// classify: partial = the run was cut by the time box, so position sets may be incomplete; a
+// position-signed class whose prefix is listed in known_findings.txt is then reported under the
+// listed key (an incomplete enumeration must never turn a known finding into a new class).
+func classify(fs []*finding, partial bool, findingsFile string) []*finding {
 	type group struct {
 		f     *finding
 		rank  int
 		cases int64
 		pos   map[string]bool
+		sig   bool // the class key carries the signature of its full position set
 	}
 	groups := map[string]*group{}
 	add := func(class string, rank int, f *finding, pos string) {
@@ -186,23 +211,28 @@ func classify(fs []*finding) []*finding {
 			sp := strings.SplitN(p[2], "@", 2)
 			add("value-with-"+sp[0]+"|"+p[1], 5+oracleRank[p[1]], f, p[2])
 		case "pct": // pct|oracle|ckind|after=|before=
-			add("comment-with-percent|"+p[1], 25+oracleRank[p[1]], f, p[2]+" after "+keyField(f.key, "after")+" before "+keyField(f.key, "before"))
+			add("comment-with-percent|"+p[1], 25+oracleRank[p[1]], f, p[2]+":"+keyField(f.key, "after")+">"+keyField(f.key, "before"))
+			groups["comment-with-percent|"+p[1]].sig = true
 		case "accepted-mutant":
 			// one class per oracle and mutation kind (the token context goes to failing_positions)
 			add("accepted-mutant|"+p[1]+"|"+p[2], 10+oracleRank[p[1]], f, strings.Join(p[3:], " "))
 		case "comment":
 			oracle, ck := p[1], p[2]
 			after, before := keyField(f.key, "after"), keyField(f.key, "before")
-			pos := ck + " after " + after + " before " + before
+			pos := ck + ":" + after + ">" + before
 			pre := ""
 			if f.rc.Family == "edge" {
 				pre = "empty-"
 			}
 			switch oracle {
 			case "comment-lost", "comment-changed", "comment-duplicated":
-				add(oracle+"|in:"+pre+construct(attachedRole(ck, after, before)), 30+oracleRank[oracle], f, pos)
+				k := oracle + "|in:" + pre + construct(attachedRole(ck, after, before))
+				add(k, 30+oracleRank[oracle], f, pos)
+				groups[k].sig = true
 			default:
-				add(oracle+"|comment|"+pre+construct(after)+">"+construct(before), 20+oracleRank[oracle], f, pos)
+				k := oracle + "|comment|" + pre + construct(after) + ">" + construct(before)
+				add(k, 20+oracleRank[oracle], f, pos)
+				groups[k].sig = true
 			}
 		default:
 			add(f.key, 50, f, "")
@@ -225,6 +255,7 @@ func classify(fs []*finding) []*finding {
 		}
 		return gs[a].k < gs[b].k
 	})
+	known := knownC20(findingsFile)
 	var out []*finding
 	for _, e := range gs {
 		f := *e.g.f
@@ -237,6 +268,18 @@ func classify(fs []*finding) []*finding {
 			}
 			sort.Strings(ps)
 			f.rc.Positions = ps
+			if e.g.sig {
+				prefix := f.key + "|pos="
+				f.key = prefix + posSig(ps)
+				if partial {
+					for _, k := range known {
+						if strings.HasPrefix(k, prefix) {
+							f.key = k
+							break
+						}
+					}
+				}
+			}
 		}
 		out = append(out, &f)
 	}
